@@ -12,6 +12,8 @@ import (
 	"bytes"
 	"context"
 	"fmt"
+	"github.com/smart-core-os/sc-api/go/traits"
+	"google.golang.org/protobuf/types/known/timestamppb"
 	"os"
 	"runtime"
 	"strconv"
@@ -58,15 +60,17 @@ type stepT struct {
 	P int    `json:"p"`
 }
 type caseT struct {
-	N      int     `json:"n"`
-	Res    string  `json:"res"` // "val" | "coll"
-	Init   []int   `json:"init"`
-	Progs  []callT `json:"progs"`
-	Kinds  []kindT `json:"kinds"`
-	Sched  []stepT `json:"sched"`
+	N     int     `json:"n"`
+	Res   string  `json:"res"` // "val" | "coll"
+	Init  []int   `json:"init"`
+	Progs []callT `json:"progs"`
+	Kinds []kindT `json:"kinds"`
+	Sched []stepT `json:"sched"`
 	// Equiv: "" / "none", or "coll" / "val": the resource is built WithNoDuplicates (see ResourceConc.tla)
-	Equiv  string  `json:"equiv"`
-	Stress int     `json:"stress"` // >0: run free-running this many times instead of following sched
+	Equiv string `json:"equiv"`
+	// Payload: "" = the all-kinds test message; "change" = a message shaped like a Pull response's Change
+	Payload string `json:"payload"`
+	Stress  int    `json:"stress"` // >0: run free-running this many times instead of following sched
 	// Attack marks a schedule taken from a named-deviation variant of the specification (a behaviour the
 	// repaired design forbids): where the real code refuses a step (a goroutine blocks on the lock that
 	// forbids it) the run is finished free-running after a short wait instead of a long one.
@@ -104,6 +108,7 @@ func (lg *runLog) lookAgain() {
 		}
 	}
 }
+
 type runLog struct {
 	N         int       `json:"n"`
 	Mode      string    `json:"mode"` // "forced" | "stress"
@@ -129,8 +134,42 @@ var ids = []string{"", "aaaaaaaa", "bbbbbbbb"}
 // every message carries, next to the tracked integer, a constant untracked part
 const restText = "rest"
 
-func msg(v int) *testproto.TestAllTypes {
+// payloadChange: the resource holds messages shaped like a Pull response's Change (name, change_time, ...),
+// the tracked integer lives in change_time.seconds.  Nothing in pkg/resource may treat that field specially
+// (pkg/cmp's default comparer does, for subscribers' duplicate suppression only).
+var payloadChange bool
+
+func msg(v int) proto.Message {
+	if payloadChange {
+		return &traits.PullOnOffResponse_Change{Name: restText, ChangeTime: &timestamppb.Timestamp{Seconds: int64(v)}}
+	}
 	return &testproto.TestAllTypes{DefaultInt32: int32(v), DefaultString: restText}
+}
+
+func emptyMsg() proto.Message {
+	if payloadChange {
+		return &traits.PullOnOffResponse_Change{}
+	}
+	return &testproto.TestAllTypes{}
+}
+
+func trackedPath() string {
+	if payloadChange {
+		return "change_time"
+	}
+	return "default_int32"
+}
+
+// addTracked adds d to the tracked integer of m in place (the delta interceptor)
+func addTracked(m proto.Message, d int) {
+	if c, ok := m.(*traits.PullOnOffResponse_Change); ok {
+		if c.ChangeTime == nil {
+			c.ChangeTime = &timestamppb.Timestamp{}
+		}
+		c.ChangeTime.Seconds += int64(d)
+		return
+	}
+	m.(*testproto.TestAllTypes).DefaultInt32 += int32(d)
 }
 
 // rest says what a received message has outside the tracked field: 1 the untracked part as written, 0 nothing
@@ -139,7 +178,13 @@ func rest(m proto.Message) int {
 	if m == nil || !m.ProtoReflect().IsValid() {
 		return -1
 	}
-	switch m.(*testproto.TestAllTypes).DefaultString {
+	text := ""
+	if c, ok := m.(*traits.PullOnOffResponse_Change); ok {
+		text = c.Name
+	} else {
+		text = m.(*testproto.TestAllTypes).DefaultString
+	}
+	switch text {
 	case restText:
 		return 1
 	case "":
@@ -150,6 +195,9 @@ func rest(m proto.Message) int {
 func val(m proto.Message) int {
 	if m == nil || !m.ProtoReflect().IsValid() {
 		return absent
+	}
+	if c, ok := m.(*traits.PullOnOffResponse_Change); ok {
+		return int(c.GetChangeTime().GetSeconds())
 	}
 	return int(m.(*testproto.TestAllTypes).DefaultInt32)
 }
@@ -297,7 +345,7 @@ func writeOpts(c callT) []resource.WriteOption {
 			if ov == absent {
 				ov = 0
 			}
-			change.(*testproto.TestAllTypes).DefaultInt32 += int32(ov)
+			addTracked(change, ov)
 		}))
 	}
 	return o
@@ -348,7 +396,7 @@ type subscription struct {
 func (t target) pull(ctx context.Context, k kindT) subscription {
 	ro := []resource.ReadOption{resource.WithBackpressure(!k.Lossy), resource.WithUpdatesOnly(k.Uo)}
 	if k.Masked {
-		ro = append(ro, resource.WithReadPaths(&testproto.TestAllTypes{}, "default_int32"))
+		ro = append(ro, resource.WithReadPaths(emptyMsg(), trackedPath()))
 	}
 	if k.Inc {
 		ro = append(ro, resource.WithInclude(func(_ string, m proto.Message) bool { v := val(m); return v != absent && v%2 == 1 }))
@@ -411,6 +459,7 @@ func build(c caseT) target {
 }
 
 func newWorld(c caseT, forced bool) *world {
+	payloadChange = c.Payload == "change"
 	w := &world{forced: forced, procs: map[int64]*proc{}, writerOf: map[int64]int{}, progs: c.Progs, subAfter: map[int64]int{},
 		lsnOf: map[int64]any{}, stopped: map[any]bool{}}
 	for _, st := range c.Sched {
